@@ -154,6 +154,22 @@ func shrink(c engine.Case) []engine.Case {
 		if d.Rend != 0 {
 			out = append(out, mk(d.Root, d.Steps, 0))
 		}
+		if d.Root != "v" {
+			out = append(out, mk("v", d.Steps, d.Rend))
+		}
+		// replace a step by one that comes earlier in the alphabet, so that
+		// the reported witness of a class does not depend on worker timing
+		alphabet := append(append([]string{}, baseSteps...), nearSteps...)
+		for i, cur := range d.Steps {
+			for _, a := range alphabet {
+				if a == cur {
+					break
+				}
+				s := append([]string{}, d.Steps...)
+				s[i] = a
+				out = append(out, mk(d.Root, s, d.Rend))
+			}
+		}
 	case "list", "map", "call":
 		for i := range d.Elems {
 			nd := d
